@@ -47,7 +47,7 @@ def chunks(tier):
     out += [("BFS", "symbolic", i, b["depth_symbolic"]) for i in range(len(BASE))]
     out += [("BFS", "partial", i, b["depth_symbolic"]) for i in range(len(BASE))]
     out += [("ELIM", a) for a in range(-6, 7) if a != 0]
-    out += [("CANCEL",), ("ASRX",)]
+    out += [("CANCEL",), ("ASRX",), ("NEGH",)]
     return out
 
 
@@ -409,9 +409,53 @@ def _check_asrx(res):
     res.sample(dict(kind="as_reactions", K="7/3", kf="5/2"))
 
 
+def _check_neg_history(res):
+    """unary minus on objects that share history: a copy with another constant, and two equilibria created with the same
+    `data` dict — each reversal is the reversal of ITS operand (stoichiometry swapped, constant inverted)"""
+    from chempy import Equilibrium
+
+    Ks = [Fr(2), Fr(3, 7), Fr(11)]
+    for i, (r, p) in enumerate(BASE):
+        for K1, K2 in itertools.permutations(Ks, 2):
+            for how in ("copy(param=)", "shared-data-dict", "neg-twice"):
+                res.states += 1
+                res.transitions += 3
+                res.evaluations += 1
+                res.nontrivial += 1
+                case = dict(kind="neghist", i=i, K1=str(K1), K2=str(K2), how=how)
+                try:
+                    if how == "copy(param=)":
+                        e = Equilibrium(r, p, K1)
+                        first = -e
+                        e2 = e.copy(param=K2)
+                        got, exp = -e2, (dict(p), dict(r), 1 / K2)
+                    elif how == "shared-data-dict":
+                        d = {}
+                        j = (i + 1) % len(BASE)
+                        e = Equilibrium(r, p, K1, data=d)
+                        e2 = Equilibrium(BASE[j][0], BASE[j][1], K2, data=d)
+                        first = -e
+                        got, exp = -e2, (dict(BASE[j][1]), dict(BASE[j][0]), 1 / K2)
+                    else:
+                        e = Equilibrium(r, p, K1)
+                        first = -e
+                        got, exp = -(-e), (dict(r), dict(p), K1)
+                    obs = (dict(got.reac), dict(got.prod), got.param)
+                    also = (dict(first.reac), dict(first.prod), first.param) == (dict(p), dict(r), 1 / K1)
+                except Exception as ex:
+                    obs, also = "EXC %s" % type(ex).__name__, True
+                ok = obs == exp and also
+                res.outcomes["neg-history-ok" if ok else "NEG-history-WRONG"] += 1
+                if not ok:
+                    res.violation("C11|neg|history|%s" % how, "base b%d, K1=%s, K2=%s, %s: reversal is %r, expected %r" % (i, K1, K2, how, obs, exp), case, str(obs), str(exp))
+    res.sample(dict(kind="neghist", how=["copy(param=)", "shared-data-dict", "neg-twice"]))
+
+
 def run_chunk(chunk, tier):
     res = Result()
-    if chunk[0] == "BFS":
+    if chunk[0] == "NEGH":
+        _check_neg_history(res)
+    elif chunk[0] == "BFS":
         _bfs(res, chunk[1], chunk[2], chunk[3])
     elif chunk[0] == "ELIM":
         a = chunk[1]
@@ -435,6 +479,9 @@ def replay(case):
     k = case["kind"]
     if k == "elim":
         _check_elim(res, case["a"], case["b"], case["shape"], case["order"])
+    elif k == "neghist":
+        sub = run_chunk(("NEGH",), "quick")
+        res.violations = [v for v in sub.violations if v["case"] == case]
     elif k == "cancel":
         sub = run_chunk(("CANCEL",), "quick")
         res.violations = [v for v in sub.violations if v["case"] == case]
